@@ -168,6 +168,22 @@ Section Msg.
       exists s, c, alg, key. auto.
   Qed.
 
+  (* a PKESK yields a session key only through the checksum gate, applied to what RSA / the ECDH unwrap+unpad produced *)
+  Theorem pkesk_decrypt_sk_ok_inv k a c alg key :
+    PKDEC k a c = Ok (alg, key) ->
+    exists m, pkesk_open m = Ok (alg, key) /\
+      ((a = 1 /\ exists v, c = CRsa v /\ rsa_decrypt_m rsa_bits rsa_dec (k_fp k) v = Ok m) \/
+       (a = 18 /\ exists xy w, c = CEcdh xy w /\ ecdh_decrypt_m ecdh_shared hash aes_unwrap k xy w = Ok m)).
+  Proof.
+    unfold pkesk_decrypt_sk. destruct (a =? 1) eqn:A1.
+    - apply Z.eqb_eq in A1. destruct c as [v| | |]; try discriminate.
+      destruct (rsa_decrypt_m rsa_bits rsa_dec (k_fp k) v) as [m|] eqn:R; cbn [bind]; [|discriminate].
+      intros O. exists m. split; [exact O|]. left. eauto.
+    - destruct (a =? 18) eqn:A2; [|discriminate]. apply Z.eqb_eq in A2. destruct c as [|xy w| |]; try discriminate.
+      destruct (ecdh_decrypt_m ecdh_shared hash aes_unwrap k xy w) as [m|] eqn:R; cbn [bind]; [|discriminate].
+      intros O. exists m. split; [exact O|]. right. eauto.
+  Qed.
+
   Theorem decrypt_wrong_recipient_raises holder es ct :
     id_in (k_id (fk_key holder)) (encrypters es) = false ->
     (forall s, In s (fk_subs holder) -> id_in (k_id s) (encrypters es) = false) ->
@@ -196,7 +212,7 @@ Section Msg.
     PKENC k seed alg sk = Ok e ->
     exists c, e = PK (k_id k) (k_alg k) c /\ PKDEC k (k_alg k) c = Ok (alg, sk).
   Proof.
-    intros V K L E. unfold pkesk_encrypt in E.
+    intros V K L E. unfold pkesk_encrypt in E. rewrite K, L, Nat.eqb_refl in E. cbn [negb] in E.
     assert (OPEN : pkesk_open (pkesk_m alg sk) = Ok (alg, sk)).
     { rewrite <- (app_nil_r (pkesk_m alg sk)). eapply pkesk_m_roundtrip; eassumption. }
     destruct (k_alg k =? 1) eqn:A1.
@@ -217,6 +233,19 @@ Section Msg.
       unfold pkesk_decrypt_sk. cbn [Z.eqb Pos.eqb]. unfold ecdh_decrypt_m.
       rewrite (ecdh_ok _ _ _ _ G). cbn [of_opt bind]. rewrite KK. cbn [bind].
       rewrite (wrap_ok _ _ _ Wr). cbn [of_opt bind]. rewrite pad_unpad. cbn [of_opt bind]. exact OPEN.
+  Qed.
+
+  (* encrypt_sk refuses a session key whose length is not the key size of the cipher *)
+  Lemma pkesk_encrypt_wrong_length k seed alg sk n :
+    key_octets alg = Some n -> length sk <> n -> PKENC k seed alg sk = Raise EEncrypt.
+  Proof.
+    intros K L. unfold pkesk_encrypt. rewrite K. destruct (length sk =? n)%nat eqn:E; [apply Nat.eqb_eq in E; contradiction|reflexivity].
+  Qed.
+  Lemma pkesk_encrypt_ok_length k seed alg sk e :
+    PKENC k seed alg sk = Ok e -> exists n, key_octets alg = Some n /\ length sk = n.
+  Proof.
+    unfold pkesk_encrypt. destruct (key_octets alg) as [n|]; [|discriminate].
+    destruct (length sk =? n)%nat eqn:E; cbn [negb]; [|discriminate]. intros _. exists n. apply Nat.eqb_eq in E. auto.
   Qed.
 
   Lemma skesk_gen_roundtrip outer inner sp pass sk e :
@@ -271,7 +300,7 @@ Section Msg.
     Hypothesis Hiv : length iv = block_octets alg.
     Hypothesis Henc : ENCTO alg sk iv rs m = Ok (es, Some ct).
 
-    Let target := m ++ mdc_bytes (sha1 (iv ++ lastn 2 iv ++ m ++ [211; 20])).
+    Let target := m.
 
     Lemma enc_parts : SENC alg sk iv m = Ok ct /\ fold_left (ADD alg sk) rs (Ok []) = Ok es.
     Proof.
